@@ -288,8 +288,10 @@ def _run_check(mod, prop, tier, seed, replay, tmp, jobs_n, timeout, t0):
             'assumptions': list(getattr(mod, 'ASSUMPTIONS', [])),
             'wall_s': round(wall, 2), 'violations': len(real),
         }
-        os.makedirs(os.path.join(HERE, 'evidence'), exist_ok=True)
-        with open(os.path.join(HERE, 'evidence', prop + '.json'), 'w') as f:
+        # evidence describes /repo itself: runs against a scratch tree (VERIF_REPO, seeded-change verification) write theirs elsewhere
+        evdir = os.path.join(HERE, 'evidence') if os.path.realpath(REPO) == '/repo' else os.path.join(REPO, '.verif-evidence')
+        os.makedirs(evdir, exist_ok=True)
+        with open(os.path.join(evdir, prop + '.json'), 'w') as f:
             json.dump(_jsonsafe(ev), f, indent=1, allow_nan=False)
 
     for name in sorted(known):
